@@ -12,7 +12,7 @@ EXPLANATION = ("(a) reparation.create_*_constraint are called with symbolic foot
                "surviving agents holding a replica of an orphaned computation, fixed neighbours hosted on surviving agents.")
 ASSUMPTIONS = ["numeric parameters are symbolic integers in [0, 2^20]; binary assignments are concrete (products stay linear)",
                "Discovery state is filled locally with publish=False (no directory)"]
-BOUNDS = {"quick": "(a) 2-3 binary variables per constraint, and a communication constraint with two fixed and two orphaned neighbours sharing agents (5 binary variables, evaluated twice in a row); (b) chain of 3 computations, 3 agents, every hosting map, replica sets of size <= 2, every non-empty departed subset of size <= 2",
+BOUNDS = {"quick": "(a) 1-3 binary variables per constraint (hosted: 1-3 candidate agents; capacity / hosting: 1-3 candidate computations), and a communication constraint with two fixed and two orphaned neighbours sharing agents (5 binary variables, evaluated twice in a row); (b) chain of 3 computations, 3 agents, every hosting map, replica sets of size <= 2, every non-empty departed subset of size <= 2",
           "thorough": "(a) up to 4 variables; (b) 4 agents, triangle graph"}
 OUTSIDE = "more than 4 agents / 4 computations; discovery states inconsistent with the directory"
 CAP_S = {"quick": 900, "thorough": 5400}
@@ -36,7 +36,7 @@ def run(eng, p):
     k = p["kind"]
     try:
         if k == "hosted":
-            agts = ["a%d" % i for i in range(p["n"])]
+            agts = ["a%d" % i for i in range(eng.choose(p["n"], "candidates") + 1)]       # 1 .. n candidate agents
             bv = {("c", a): BinaryVariable("B_c_" + a) for a in agts}
             cons = rep.create_computation_hosted_constraint("c", bv)
             asg = {v.name: eng.choose(2, "b_" + v.name) for v in bv.values()}
@@ -45,7 +45,7 @@ def run(eng, p):
             eng.prove((val == 0) == (sum(asg.values()) == 1), "hosted constraint is not 0 iff exactly one candidate hosts the computation",
                       detail=str((asg, val)))
         elif k in ("capacity", "hosting"):
-            comps = ["c%d" % i for i in range(p["n"])]
+            comps = ["c%d" % i for i in range(eng.choose(p["n"], "computations") + 1)]     # 1 .. n candidate computations
             bv = {(c, "a1"): BinaryVariable("B_%s_a1" % c) for c in comps}
             par = {c: eng.sym_int(("foot_" if k == "capacity" else "host_") + c, 0, LIM) for c in comps}
             asg = {v.name: eng.choose(2, "b_" + v.name) for v in bv.values()}
